@@ -205,6 +205,15 @@ def Q.toQuantity [Mul α] [Div α] (types : List (Rule α)) (q : Q α) (tm : α)
   | .ok g => ({ val := q.val.map (fun x => g x / tm), bu := tb }, true)
   | .error _ => (q, false)
 
+/-- `UnitType.convert` together with the uncertainty it carries: the value is computed from
+    the value alone; what happens to the error (scaled for linear conversions, C08) is a
+    parameter `errf` of this model. Returns `(value, error)`. -/
+def Q.valueInWithError [Mul α] [Div α] (types : List (Rule α)) (q : Q α) (err : Option (Mag α))
+    (errf : (α → α) → Mag α → Mag α) (b2 : BU α) : Except Err (Mag α × Option (Mag α)) :=
+  match pick types q.bu b2 with
+  | .ok g => .ok (q.val.map g, err.map (errf g))
+  | .error e => .error e
+
 /-- `Unit().<symbol>` / `Unit(symbol)`: a *fresh* `Quantity(1, symbol)` on every access. -/
 def unitAttr [Mul α] [One α] [PowFrac α] (tag : Nat) (items : List (Item α)) : Q α :=
   Q.init tag (.scalar 1) items
